@@ -62,6 +62,10 @@ def check_table(F, where, t):
         return
     if shape != got:
         F.add("dim", where, f"get_dim()={got} but get_table() has shape {shape}", cls=type(t).__name__)
+    for i, row in enumerate(tab):                     # cell texts are text of the result as well
+        for j, cell in enumerate(row):
+            if isinstance(cell, str) and enc_fail(cell):
+                F.add("not-wf", f"{where}.get_table()[{i}][{j}]", enc_fail(cell))
 
 
 def check_image(F, where, im):
@@ -197,27 +201,67 @@ def rtf_cases(n=None):
     return cases
 
 
+def rtf_documents(units):
+    """The same run of \\uN escapes in the contexts that reach different strippers: body text (full stripper), after ordinary BMP
+    escapes in one run, inside a table cell and a footnote (simple stripper), and a header-less document (fallback path)."""
+    run = b"".join(BS + b"u" + str(u if u < 32768 else u - 65536).encode() + b"?" for u in units)
+    head = b"{" + BS + b"rtf1" + BS + b"ansi" + BS + b"deff0 {" + BS + b"fonttbl{" + BS + b"f0 Arial;}}"
+    yield "body", head + BS + b"pard A" + run + b"B" + BS + b"par}"
+    yield "after BMP escapes", head + BS + b"pard A" + BS + b"u228?" + run + b"B" + BS + b"par}"
+    yield "table cell", head + BS + b"trowd" + BS + b"cellx3000" + BS + b"cellx6000 x" + run + b"y" + BS + b"cell z" + BS + b"cell" + BS + b"row" + BS + b"pard after" + BS + b"par}"
+    yield "footnote", head + BS + b"pard T{" + BS + b"footnote n" + run + b"m}" + BS + b"par}"
+    yield "no font table", b"{" + BS + b"rtf1 A" + run + b"B}"
+
+
 def find_rtf(site_fn, n=None):
+    """Directed search over the \\uN construct: solver witness first, then pairs / lone surrogates, each in every context; the
+    function named by the obligation is also called directly when it is a module-level str -> str helper or a stripper method."""
     from sharepoint2text.parsing.extractors.ms_legacy import rtf_extractor as rx
     for label, units in rtf_cases(n):
-        if "simple" in site_fn:
-            text = rtf_with_units(units, full=False).decode("ascii")
+        run_text = "".join("\\u" + str(u if u < 32768 else u - 65536) + "?" for u in units)
+        # function-level: the site's own function on the bare construct
+        direct = []
+        fn = getattr(rx, site_fn.split(".")[-1], None) if "." not in site_fn else None
+        if callable(fn):
+            direct.append((f"rtf_extractor.py::{site_fn}", lambda t=run_text, fn=fn: fn(t), run_text))
+        if site_fn.endswith("_strip_rtf_simple"):
+            text = "{\\rtf1 A" + run_text + "B}"
+            direct.append(("rtf_extractor.py::_RtfParser._strip_rtf_simple", lambda t=text: rx._RtfParser(b"")._strip_rtf_simple(t), text))
+        for target, thunk, arg in direct:
             try:
-                out = rx._RtfParser(b"")._strip_rtf_simple(text)
-            except Exception as e:  # noqa
+                out = thunk()
+            except Exception:  # noqa
                 continue
-            bad = enc_fail(out)
+            bad = enc_fail(out) if isinstance(out, str) else None
             if bad:
-                return {"reproduced": True, "target": "rtf_extractor.py::_RtfParser._strip_rtf_simple", "inputs": {"text": text, "case": label},
+                e2e = None
+                for ctx, data in rtf_documents(units):
+                    try:
+                        wf = [f for f in failures_of(data, "a.rtf") if f["kind"] == "not-wf"]
+                    except Exception:  # noqa
+                        wf = []
+                    if wf:
+                        e2e = {"context": ctx, "rtf": data.decode("ascii"), "observed": f"{wf[0]['where']}: {wf[0]['detail']}"}
+                        break
+                return {"reproduced": True, "target": target, "inputs": {"text": arg, "case": label, "end_to_end": e2e},
                         "expected": "text encodable as UTF-8 (pair combined into one code point, lone surrogates replaced)", "observed": bad}
-        else:
-            data = rtf_with_units(units, full=True)
-            F = failures_of(data, "a.rtf")
+        for ctx, data in rtf_documents(units):
+            try:
+                F = failures_of(data, "a.rtf")
+                res, _p = extract(data, "a.rtf")
+            except Exception:  # noqa
+                continue
             wf = [f for f in F if f["kind"] == "not-wf"]
+            for r in res:                                   # table cells are text too
+                for tb in r.iterate_tables():
+                    for row in tb.get_table():
+                        for cell in row:
+                            if isinstance(cell, str) and enc_fail(cell):
+                                wf.append({"where": "table cell", "detail": enc_fail(cell)})
             if wf:
-                return {"reproduced": True, "target": "sharepoint2text read_rtf (via _strip_rtf_full_with_pages)", "inputs": {"rtf": data.decode("ascii"), "case": label},
-                        "expected": "get_full_text().encode('utf-8') succeeds", "observed": f"{wf[0]['where']}: {wf[0]['detail']}"}
-    return {"reproduced": False, "note": "RTF \\uN escapes: all crafted cases encodable"}
+                return {"reproduced": True, "target": "sharepoint2text read_rtf", "inputs": {"rtf": data.decode("ascii"), "case": label, "context": ctx},
+                        "expected": "every text of the result encodable as UTF-8", "observed": f"{wf[0]['where']}: {wf[0]['detail']}"}
+    return {"reproduced": False, "note": "RTF \\uN escapes: all crafted cases encodable in every context"}
 
 
 def sevenzip_files_info(units):
@@ -249,6 +293,73 @@ def find_sevenzip(n=None):
             return {"reproduced": True, "target": "sevenzip.py::SevenZipReader._parse_files_info", "inputs": {"utf16_code_units": units, "case": label},
                     "expected": "member name encodable as UTF-8 (UTF-16 pairs combined, lone surrogates replaced)", "observed": bad}
     return {"reproduced": False, "note": "7z names: all crafted cases encodable"}
+
+
+def sample_from_pattern(pattern, fill):
+    """A string matched by `pattern` whose capturing groups contain `fill` (directed search over the construct the
+    obligation is about): literals as they are, repeats at their minimum, sets by their first member."""
+    import re
+    P, C = re._parser, re._constants
+
+    def gen(sub):
+        out = []
+        for op, av in sub:
+            if op is C.LITERAL:
+                out.append(chr(av))
+            elif op is C.SUBPATTERN:
+                out.append(fill if av[0] is not None else gen(av[3]))
+            elif op in (C.MAX_REPEAT, C.MIN_REPEAT):
+                out.append(gen(av[2]) * max(av[0], 0))
+            elif op is C.IN:
+                first = next((x for x in av if x[0] in (C.LITERAL, C.RANGE)), None)
+                out.append(chr(first[1]) if first and first[0] is C.LITERAL else (chr(first[1][0]) if first else "0"))
+            elif op is C.BRANCH:
+                out.append(gen(av[1][0]))
+            elif op is C.ANY:
+                out.append("a")
+            elif op is C.CATEGORY:
+                out.append("0" if av is C.CATEGORY_DIGIT else ("a" if av is C.CATEGORY_WORD else " "))
+        return "".join(out)
+    try:
+        return gen(P.parse(pattern))
+    except Exception:  # noqa
+        return None
+
+
+def find_text_helper(rel, fn_name, n=None):
+    """Function-level replay for a chr site inside a module-level str -> str helper: the helper is called on strings built from
+    the module's own compiled patterns with the solver's code unit (and a few surrogates) written in hex / decimal."""
+    import importlib
+    import inspect
+    import re
+    if not rel or "." in fn_name:
+        return {"reproduced": False, "note": "no function-level replay for this site"}
+    try:
+        mod = importlib.import_module(rel[:-3].replace("/", "."))
+        fn = getattr(mod, fn_name)
+        params = [p for p in inspect.signature(fn).parameters.values() if p.default is inspect.Parameter.empty]
+    except Exception as e:  # noqa
+        return {"reproduced": False, "note": f"helper not importable: {e}"}
+    if len(params) != 1:
+        return {"reproduced": False, "note": "helper does not take a single argument"}
+    units = [u for u in (n, 0xD83D, 0xDE00, 0xD800, 0xDFFF) if isinstance(u, int) and 0xD800 <= u <= 0xDFFF]
+    pats = [v.pattern for v in vars(mod).values() if isinstance(v, re.Pattern) and isinstance(v.pattern, str) and v.groups >= 1]
+    for u in units:
+        for fill in (f"{u:04X}", f"{u:04x}", str(u), str(u - 65536), f"{u:X}"):
+            for pat in pats:
+                text = sample_from_pattern(pat, fill)
+                if not text:
+                    continue
+                for arg in (text, "a" + text + "b"):
+                    try:
+                        out = fn(arg)
+                    except Exception:  # noqa
+                        continue
+                    bad = enc_fail(out) if isinstance(out, str) else None
+                    if bad:
+                        return {"reproduced": True, "target": f"{rel.split('/')[-1]}::{fn_name}", "inputs": {"text": arg, "code_unit": hex(u), "pattern": pat},
+                                "expected": "a str encodable as UTF-8", "observed": bad}
+    return {"reproduced": False, "note": f"{fn_name}: no surrogate produced on {len(pats)} pattern-derived inputs"}
 
 
 UNSAFE_CODEC_BODIES = [("unicode_escape", b"A" + BS + b"ud83dB"), ("raw_unicode_escape", b"A" + BS + b"ud83dB"), ("utf-7", b"A+2D0-B")]
@@ -352,6 +463,53 @@ def find_damaged_member(file_key, kinds=("image-number",)):
                     "inputs": {"fixture": "tests/resources/" + rel, "mutation": "CRC-32 of picture members flipped (local header + central directory)", "members": hit},
                     "expected": "image numbers are positive integers", "observed": f"{bad[0]['where']}: {bad[0]['detail']}"}
     return {"reproduced": False, "note": "damaged picture members: interface honoured"}
+
+
+def blip_stream():
+    """An OfficeArt `Pictures` stream with one record of every BLIP kind the readers know (PNG, JPEG, DIB, EMF, WMF)."""
+    from sharepoint2text.parsing.extractors.util import image_utils as iu
+    png = b"\x89PNG\r\n\x1a\n" + struct.pack(">I", 13) + b"IHDR" + struct.pack(">IIBBBBB", 2, 3, 8, 2, 0, 0, 0) + b"\0\0\0\0" + struct.pack(">I", 0) + b"IEND\xaeB`\x82"
+    jpeg = b"\xff\xd8\xff\xe0\x00\x10JFIF\x00\x01\x01\x00\x00\x01\x00\x01\x00\x00\xff\xc0\x00\x0b\x08\x00\x03\x00\x02\x01\x01\x11\x00\xff\xd9"
+    dib = struct.pack("<IiiHHIIiiII", 40, 2, 2, 1, 24, 0, 16, 2835, 2835, 0, 0) + bytes(range(16))
+    recs = [(iu.BLIP_TYPE_PNG, iu.BLIP_INSTANCE_PNG, png), (iu.BLIP_TYPE_JPEG, iu.BLIP_INSTANCE_JPEG, jpeg), (iu.BLIP_TYPE_DIB, 0x7A8, dib),
+            (iu.BLIP_TYPE_EMF, 0x3D4, b"\x01\x00\x00\x00emf-bytes" + bytes(30)), (iu.BLIP_TYPE_WMF, 0x216, b"\xd7\xcd\xc6\x9awmf-bytes" + bytes(30))]
+    out = b""
+    for typ, inst, payload in recs:
+        body = bytes(16) + b"\xff" + payload                       # 16-byte UID + tag, then the picture
+        out += struct.pack("<HHI", (inst << 4) | 0, typ, len(body)) + body
+    return out, [r[0] for r in recs]
+
+
+class FakeOle:
+    def __init__(self, streams):
+        self.streams = streams
+
+    def exists(self, name):
+        return name in self.streams
+
+    def openstream(self, name):
+        return io.BytesIO(self.streams[name])
+
+
+def find_blip(ob):
+    """Function-level replay of the OfficeArt picture readers on a hand-built stream covering every BLIP kind."""
+    data, kinds = blip_stream()
+    try:
+        if "ppt_extractor" in ob:
+            from sharepoint2text.parsing.extractors.ms_legacy import ppt_extractor as px
+            images, target = px._extract_images_from_pictures_stream(FakeOle({"Pictures": data})), "ppt_extractor.py::_extract_images_from_pictures_stream"
+        else:
+            return {"reproduced": False, "note": "no BLIP replay for this reader"}
+    except Exception as e:  # noqa
+        return {"reproduced": False, "note": f"BLIP replay failed: {type(e).__name__}: {e}"}
+    F = Failures()
+    for i, im in enumerate(images):
+        check_image(F, f"image[{i}]", im)
+    bad = [f for f in F if f["kind"] in ("image-size", "bytes", "image-number", "accessor-raises", "not-str")]
+    if bad:
+        return {"reproduced": True, "target": target, "inputs": {"pictures_stream_hex": data.hex(), "blip_record_types": [hex(k) for k in kinds]},
+                "expected": "every image: size_bytes == len(get_bytes()), number >= 1, accessors total", "observed": f"{bad[0]['where']}: {bad[0]['detail']}"}
+    return {"reproduced": False, "note": f"BLIP stream with {len(kinds)} record kinds: {len(images)} images honour the interface"}
 
 
 LENGTHS = ["9" * 400 + "cm", "9" * 400, "9" * 310 + "px", "1" + "0" * 330 + "mm", "1.5in", "", "x", "10", "1e400cm"]
@@ -462,17 +620,42 @@ PATHS = [None, "a.txt", "/abs/dir/y.docx", "rel/dir/z.tar.gz", "archive.zip!/inn
 
 
 def find_path():
+    """Path arguments: None, relative, absolute, unicode, archive!/member, non-existent -- and EXISTING ones in a scratch directory
+    (plain file, symlink whose target has another name / suffix / directory, a path through `sub/..`)."""
     from sharepoint2text.parsing.extractors import data_types as dt
     import pathlib
-    for p in PATHS + [pathlib.Path("rel/p.txt")]:
-        md = dt.FileMetadataInterface()
-        F = Failures()
-        ok, _ = call(F, "populate_from_path", md.populate_from_path, p)
-        check_file_metadata(F, "FileMetadataInterface", md, p)
-        if F:
-            return {"reproduced": True, "target": "data_types.py::FileMetadataInterface.populate_from_path", "inputs": {"path": str(p) if p is not None else None},
-                    "expected": "name / suffix / path / parent of the path argument, all None without path", "observed": F[0]["detail"]}
-    return {"reproduced": False, "note": f"{len(PATHS) + 1} path arguments: metadata derived from the path"}
+    import tempfile
+    with tempfile.TemporaryDirectory() as d:
+        real = os.path.realpath(d)
+        os.makedirs(os.path.join(real, "store", "deep"))
+        os.makedirs(os.path.join(real, "inbox"))
+        target = os.path.join(real, "store", "deep", "blob.dat")
+        open(target, "wb").write(b"x")
+        plain = os.path.join(real, "inbox", "plain.txt")
+        open(plain, "wb").write(b"x")
+        existing = [plain, os.path.join(real, "inbox", "..", "inbox", "plain.txt")]
+        try:
+            link = os.path.join(real, "inbox", "report.docx")
+            os.symlink(target, link)
+            existing.append(link)
+            dlink = os.path.join(real, "shortcut")
+            os.symlink(os.path.join(real, "store", "deep"), dlink)
+            existing.append(os.path.join(dlink, "blob.dat"))
+        except OSError:
+            pass
+        for p in PATHS + [pathlib.Path("rel/p.txt")] + existing + [pathlib.Path(x) for x in existing]:
+            md = dt.FileMetadataInterface()
+            F = Failures()
+            ok, _ = call(F, "populate_from_path", md.populate_from_path, p)
+            check_file_metadata(F, "FileMetadataInterface", md, p)
+            if F:
+                shown = str(p).replace(real, "<tmp>") if p is not None else None
+                return {"reproduced": True, "target": "data_types.py::FileMetadataInterface.populate_from_path",
+                        "inputs": {"path": shown, "exists": p is not None and os.path.lexists(str(p)), "is_symlink": p is not None and os.path.islink(str(p)),
+                                   "layout": "<tmp>/inbox/report.docx -> <tmp>/store/deep/blob.dat ; <tmp>/shortcut -> <tmp>/store/deep"},
+                        "expected": "name / suffix of the path ARGUMENT; path and folder: the argument's or their resolved form; all None without path",
+                        "observed": F[0]["detail"].replace(real, "<tmp>")}
+    return {"reproduced": False, "note": f"{len(PATHS) + 1 + 2 * len(existing)} path arguments (incl. existing files and symlinks): metadata derived from the path"}
 
 
 def find_accessor(cls_name, meth):
@@ -529,7 +712,8 @@ def sweep(kinds=None, cls=None, fixtures_only=False):
             pass
     if not fixtures_only:
         for label, units in rtf_cases():
-            docs.append((f"crafted:{label}.rtf", rtf_with_units(units)))
+            for ctx, data in rtf_documents(units):
+                docs.append((f"crafted:{label} ({ctx}).rtf", data))
         for rel, pred, _key in DAMAGED:
             f = os.path.join(RES, rel)
             if os.path.exists(f):
@@ -588,7 +772,12 @@ def find(req):
             return find_rtf(ob.split("::")[1].split("/")[0], n)
         if "sevenzip" in ob:
             return find_sevenzip(n)
-        return {"reproduced": False, "note": "no crafted input for this chr site"}
+        r = find_text_helper((hint or {}).get("file") or "", ob.split("::")[1].split("/")[0], n)
+        if r["reproduced"] or "docx_extractor" not in ob:
+            return r
+        from replay import c04_meta
+        m = c04_meta.find("C04/x#docx-")
+        return m if m["reproduced"] else r
     if "/wf#decode-site" in ob:
         fn = ob.split("::")[1].split("/")[0]
         k = int(ob.rsplit("-", 1)[1])
@@ -601,12 +790,18 @@ def find(req):
         r = find_damaged_member(ob)
         if r["reproduced"]:
             return r
+        rb = find_blip(ob)
+        if rb["reproduced"]:
+            return rb
         cls = ob.split("#")[1].split("-")[0]
         s = sweep(kinds=("image-number",), cls=cls)
         if s:
             return {"reproduced": True, "target": ob, "inputs": {"file": s[0]["file"]}, "expected": "image number >= 1", "observed": f"{s[0]['where']}: {s[0]['detail']}"}
         return r
     if "size_bytes-is-len-of-payload" in ob or "/field-store#" in ob:
+        r = find_blip(ob)
+        if r["reproduced"]:
+            return r
         cls = ob.split("#")[1].split("-")[0] if "size_bytes" in ob else None
         s = sweep(kinds=("image-size", "bytes", "image-number"), cls=cls)
         if s:
